@@ -17,6 +17,11 @@ What is extracted (anything not recognised raises Untranslatable -> tie broken):
      - whether the node is replaced: abstract interpretation of the return
        statements (`node` untouched / generic_visit(node) = same; else new)
        -> Never / Sometimes / Always;
+     - the fields whose content may end up where no traversal enters: a direct `ast.<Kind>(...)`
+       construction must give every list field of the grammar a value that is recognisably a list
+       (display, comprehension, list(...), attribute of a node, sum of those); a tuple / tuple(...) /
+       generator is recorded (a_hide: the fields of the visited node that flow into it, by a
+       flow-insensitive taint over the method and its helpers); anything else fails closed;
      - the node kinds introduced: every node class occurring in a template
        string, `parser.parse_expression` literal or direct `ast.<Kind>(...)`
        construction reachable from the method through self.<helper> references
@@ -51,11 +56,15 @@ CALL_SUBKINDS = ['ag', 'fscope', 'debugger', 'print', 'gen']
 DOCUMENTED_DEBUGGER = {'pdb.set_trace', 'ipdb.set_trace', 'breakpoint'}
 
 
+STAR_FIELDS = set()     # (kind, field) whose value is a list in CPython's grammar
+
+
 def grammar():
     """-> (fields: kind -> [(fname, typename)], sorts: typename -> [kinds], S kinds, stmt fields)"""
     fields = {}
     sort_of = {}
     sorts = {}
+    STAR_FIELDS.clear()
     for name in sorted(dir(ast)):
         cls = getattr(ast, name)
         if not (isinstance(cls, type) and issubclass(cls, ast.AST)) or cls is ast.AST:
@@ -74,6 +83,8 @@ def grammar():
             for part in m.group(1).split(','):
                 ty, fn = part.strip().split()
                 fl.append((fn, ty.rstrip('*?')))
+                if ty.endswith('*'):
+                    STAR_FIELDS.add((name, fn))
         fields[name] = fl
         base = cls.__mro__[1].__name__
         sort_of[name] = base if base != 'AST' else name
@@ -202,16 +213,242 @@ def _str_value(node, env):
     return None
 
 
+def _string_env(ci, fn):
+    """name -> [(line, texts)] for the assignments of string constants in a function.  Recognised values: a string
+    literal; an f-string whose holes are names bound to string constants only; `a if c else b` of those; and a
+    template derived from an earlier one,  X = Y.replace(<const>, <those>)  -- the derived template stands for
+    the earlier texts too (the derivation may be conditional)."""
+    assigns = sorted((n for n in ast.walk(fn) if isinstance(n, ast.Assign) and len(n.targets) == 1
+                      and isinstance(n.targets[0], ast.Name)), key=lambda n: (n.lineno, n.col_offset))
+    env = {}
+
+    def before(name, line):
+        prev = [x for x in env.get(name, []) if x[0] < line]
+        return max(prev)[1] if prev else None
+
+    def consts(e, line):
+        if isinstance(e, ast.Constant) and isinstance(e.value, str):
+            return [e.value]
+        if isinstance(e, ast.IfExp):
+            a, b = consts(e.body, line), consts(e.orelse, line)
+            return None if a is None or b is None else a + b
+        if isinstance(e, ast.Name):
+            # every assignment of the name in this function must be a recognised string
+            vals = []
+            for a in assigns:
+                if a.targets[0].id == e.id:
+                    if a.lineno >= line:
+                        return None
+                    v = before(e.id, a.lineno + 1)
+                    if v is None:
+                        return None
+                    vals += v
+            return vals or None
+        if isinstance(e, ast.JoinedStr):
+            outs = ['']
+            for part in e.values:
+                if isinstance(part, ast.Constant):
+                    vs = [part.value]
+                elif isinstance(part, ast.FormattedValue) and part.format_spec is None and part.conversion == -1:
+                    vs = consts(part.value, line)
+                    if vs is None:
+                        return None
+                else:
+                    return None
+                outs = [o + v for o in outs for v in vs]
+                if len(outs) > 64:
+                    _fail(ci.fn, e, 'template text has too many variants')
+            return outs
+        return None
+
+    for a in assigns:
+        name, v = a.targets[0].id, a.value
+        if isinstance(v, ast.Call) and isinstance(v.func, ast.Attribute) and v.func.attr == 'replace' \
+                and isinstance(v.func.value, ast.Name) and before(v.func.value.id, a.lineno) is not None:
+            base = before(v.func.value.id, a.lineno)
+            if len(v.args) != 2 or v.keywords:
+                _fail(ci.fn, a, 'template derived by an unrecognised str.replace')
+            olds, news = consts(v.args[0], a.lineno), consts(v.args[1], a.lineno)
+            if olds is None or news is None:
+                _fail(ci.fn, a, 'template derived by str.replace with a text that is not a string constant')
+            texts = list(base)
+            for b in base:
+                for o in olds:
+                    for w in news:
+                        if b.replace(o, w) not in texts:
+                            texts.append(b.replace(o, w))
+            if len(texts) > 64:
+                _fail(ci.fn, a, 'template text has too many variants')
+            env.setdefault(name, []).append((a.lineno, texts))
+            continue
+        texts = consts(v, a.lineno) if isinstance(v, (ast.JoinedStr, ast.IfExp, ast.Constant)) else None
+        if texts is None:
+            texts = _str_value(v, {})
+        if texts is not None:
+            env.setdefault(name, []).append((a.lineno, texts))
+    return env
+
+
+def _nearest_assignment(fn, name, line):
+    best = None
+    for a in ast.walk(fn):
+        if isinstance(a, ast.Assign) and a.lineno < line:
+            for tg in a.targets:
+                if isinstance(tg, ast.Name) and tg.id == name and (best is None or a.lineno > best.lineno):
+                    best = a
+                elif isinstance(tg, (ast.Tuple, ast.List)) and any(
+                        isinstance(x, ast.Name) and x.id == name for x in ast.walk(tg)) \
+                        and (best is None or a.lineno > best.lineno):
+                    best = a
+    return best
+
+
+def _sequence_shape(ci, fn, e, depth=0):
+    """'list' | 'opaque' | 'empty' for the value given to a list field of a constructed node; fails closed."""
+    if isinstance(e, (ast.List, ast.ListComp)):
+        return 'list'
+    if isinstance(e, ast.Tuple):
+        return 'opaque' if e.elts else 'empty'
+    if isinstance(e, (ast.GeneratorExp, ast.Set, ast.SetComp)):
+        return 'opaque'
+    if isinstance(e, ast.Call) and isinstance(e.func, ast.Name) and e.func.id in ('list', 'sorted') and not e.keywords:
+        return 'list'
+    if isinstance(e, ast.Call) and isinstance(e.func, ast.Name) and e.func.id in ('tuple', 'set', 'frozenset', 'iter',
+                                                                                 'map', 'filter', 'zip', 'reversed'):
+        return 'opaque' if e.args else 'empty'
+    if isinstance(e, ast.BinOp) and isinstance(e.op, ast.Add):
+        a, b = _sequence_shape(ci, fn, e.left, depth), _sequence_shape(ci, fn, e.right, depth)
+        return 'opaque' if 'opaque' in (a, b) else 'list' if 'list' in (a, b) else 'empty'
+    if isinstance(e, ast.IfExp):
+        a, b = _sequence_shape(ci, fn, e.body, depth), _sequence_shape(ci, fn, e.orelse, depth)
+        return 'opaque' if 'opaque' in (a, b) else 'list' if 'list' in (a, b) else 'empty'
+    if isinstance(e, ast.Attribute):
+        return 'list'          # a field of an existing node (the parser and the templates build lists)
+    if isinstance(e, ast.Subscript) and isinstance(e.slice, ast.Slice):
+        return _sequence_shape(ci, fn, e.value, depth)
+    if isinstance(e, ast.Name) and depth < 4:
+        a = _nearest_assignment(fn, e.id, e.lineno)
+        if a is not None and len(a.targets) == 1 and isinstance(a.targets[0], ast.Name):
+            return _sequence_shape(ci, fn, a.value, depth + 1)
+    _fail(ci.fn, e, 'list field of a constructed node given a value that is not recognisably a list: ' + ast.unparse(e))
+
+
+def opaque_constructions(ci, mname, all_nodes):
+    """[(function, expression)] : values that are not lists given to list fields in direct ast.<Kind>(...)
+    constructions reachable from the method."""
+    out = []
+    for fn in ci.closure(mname):
+        for n in ast.walk(fn):
+            if not (isinstance(n, ast.Call) and isinstance(n.func, ast.Attribute) and isinstance(n.func.value, ast.Name)
+                    and n.func.value.id == 'ast' and n.func.attr in all_nodes):
+                continue
+            k = n.func.attr
+            given = list(zip(getattr(ast, k)._fields, n.args)) + [(kw.arg, kw.value) for kw in n.keywords]
+            if any(isinstance(a, ast.Starred) for a in n.args) or any(kw.arg is None for kw in n.keywords):
+                _fail(ci.fn, n, 'node constructed with unpacked arguments')
+            for f, v in given:
+                if (k, f) in STAR_FIELDS and _sequence_shape(ci, fn, v) == 'opaque':
+                    out.append((fn, v))
+    return out
+
+
+def hidden_fields(ci, mname, var, node_fields, all_nodes):
+    """Fields of the visited node whose content may flow into a non-list sequence given to a list field of a
+    constructed node.  Flow-insensitive taint over the method and the helpers it reaches: the taint of a name
+    is the set of first-level fields of the visited node it may derive from ('*' = the node itself)."""
+    sinks = opaque_constructions(ci, mname, all_nodes)
+    if not sinks:
+        return []
+    fns = ci.closure(mname)
+    taint = {}      # (function name, local name) -> set of fields / '*'
+    taint[(mname, var)] = {'*'}
+
+    def of_expr(fname, e):
+        res = set()
+        skip = set()
+        for x in ast.walk(e):
+            if isinstance(x, ast.Attribute):
+                p, base = [], x
+                while isinstance(base, (ast.Attribute, ast.Subscript)):
+                    if isinstance(base, ast.Attribute):
+                        p.append(base.attr)
+                    base = base.value
+                if isinstance(base, ast.Name) and '*' in taint.get((fname, base.id), ()):
+                    first = p[-1] if p else None
+                    if first in node_fields:
+                        res.add(first)
+                        skip.add(id(base))
+                    elif first is not None and len(taint[(fname, base.id)]) == 1:
+                        skip.add(id(base))      # node.ctx, node.lineno, ...: no child
+        for x in ast.walk(e):
+            if isinstance(x, ast.Name) and id(x) not in skip:
+                res |= taint.get((fname, x.id), set())
+        return res
+
+    changed = True
+    rounds = 0
+    while changed and rounds < 50:
+        changed = False
+        rounds += 1
+        for fn in fns:
+            if not isinstance(fn, ast.FunctionDef):
+                continue
+            for n in ast.walk(fn):
+                if isinstance(n, (ast.Assign, ast.AugAssign, ast.AnnAssign)) and getattr(n, 'value', None) is not None:
+                    tv = of_expr(fn.name, n.value)
+                    tgts = n.targets if isinstance(n, ast.Assign) else [n.target]
+                    for tg in tgts:
+                        for x in ast.walk(tg):
+                            if isinstance(x, ast.Name) and isinstance(x.ctx, ast.Store):
+                                cur = taint.setdefault((fn.name, x.id), set())
+                                if not tv <= cur:
+                                    cur |= tv
+                                    changed = True
+                elif isinstance(n, (ast.For, ast.comprehension)):
+                    tv = of_expr(fn.name, n.iter)
+                    for x in ast.walk(n.target):
+                        if isinstance(x, ast.Name):
+                            cur = taint.setdefault((fn.name, x.id), set())
+                            if not tv <= cur:
+                                cur |= tv
+                                changed = True
+                elif isinstance(n, ast.Call):
+                    callee = None
+                    if isinstance(n.func, ast.Attribute) and isinstance(n.func.value, ast.Name) \
+                            and n.func.value.id == 'self' and n.func.attr in ci.methods:
+                        callee, params = ci.methods[n.func.attr], [a.arg for a in ci.methods[n.func.attr].args.args][1:]
+                    elif isinstance(n.func, ast.Name) and isinstance(ci.module_defs.get(n.func.id), ast.FunctionDef):
+                        callee = ci.module_defs[n.func.id]
+                        params = [a.arg for a in callee.args.args]
+                    if callee is None or callee.name.startswith('visit_'):
+                        continue
+                    for i, a in enumerate(n.args):
+                        if i < len(params):
+                            tv = of_expr(fn.name, a)
+                            cur = taint.setdefault((callee.name, params[i]), set())
+                            if not tv <= cur:
+                                cur |= tv
+                                changed = True
+                    for kw in n.keywords:
+                        if kw.arg in params:
+                            tv = of_expr(fn.name, kw.value)
+                            cur = taint.setdefault((callee.name, kw.arg), set())
+                            if not tv <= cur:
+                                cur |= tv
+                                changed = True
+    hidden = set()
+    for fn, v in sinks:
+        hidden |= of_expr(fn.name, v) if isinstance(fn, ast.FunctionDef) else {'*'}
+    if '*' in hidden or not hidden:
+        return list(node_fields)        # provenance unknown: anything of the node may be there
+    return [f for f in node_fields if f in hidden]
+
+
 def template_kinds(ci, mname, interest, all_nodes):
     """Kinds introduced by the code reachable from method mname."""
     out = set()
     for fn in ci.closure(mname):
-        env = {}
-        for n in ast.walk(fn):
-            if isinstance(n, ast.Assign) and len(n.targets) == 1 and isinstance(n.targets[0], ast.Name):
-                v = _str_value(n.value, {})
-                if v is not None:
-                    env.setdefault(n.targets[0].id, []).append((n.lineno, v))
+        env = _string_env(ci, fn)
         for n in ast.walk(fn):
             if not isinstance(n, ast.Call):
                 continue
@@ -800,43 +1037,44 @@ def translate(repo):
                     meta['operator_names'][cname] = sorted(set(names))
                     intro = set(x for x in intro if not x.startswith('?')) | {'Call.ag'}
                 intro = sorted(intro)
+                hide = hidden_fields(ci, mname, var, [x for x, _ in nfields[kind]], all_nodes)
                 if kind == 'Call':
                     guards = call_guards(ci, m, var) if rw == 'Sometimes' and cname == 'CallTreeTransformer' else None
                     base_rw = 'Always' if guards is not None else rw
-                    entries.append(('Call', None, allf, fields, base_rw, intro))
+                    entries.append(('Call', None, allf, fields, base_rw, intro, hide))
                     for sk in CALL_SUBKINDS:
                         if sk == 'gen':
                             continue
                         g = guards.get(sk) if guards else None
                         if g == 'never':
-                            entries.append(('Call.' + sk, None, allf, fields, 'Never', intro))
+                            entries.append(('Call.' + sk, None, allf, fields, 'Never', intro, hide))
                         elif g:
                             features.add(g[1])
-                            entries.append(('Call.' + sk, (g[1], False), allf, fields, 'Never', intro))
-                            entries.append(('Call.' + sk, (g[1], True), allf, fields, base_rw, intro))
+                            entries.append(('Call.' + sk, (g[1], False), allf, fields, 'Never', intro, hide))
+                            entries.append(('Call.' + sk, (g[1], True), allf, fields, base_rw, intro, hide))
                         else:
-                            entries.append(('Call.' + sk, None, allf, fields, base_rw, intro))
+                            entries.append(('Call.' + sk, None, allf, fields, base_rw, intro, hide))
                     if guards and guards.get('_debugger_names'):
                         meta['debugger_names'] = guards['_debugger_names']
-                    entries.append(('Call.gen', None, allf, fields, base_rw, intro))
+                    entries.append(('Call.gen', None, allf, fields, base_rw, intro, hide))
                     continue
                 if kind == 'UnaryOp':
                     r = unary_resolution(ci, m, var, mod) if rw == 'Sometimes' else None
                     for sk in UNARY_SUBKINDS:
                         if r is None:
-                            entries.append(('UnaryOp.' + sk, None, allf, fields, rw, intro))
+                            entries.append(('UnaryOp.' + sk, None, allf, fields, rw, intro, hide))
                         else:
                             how = r[0].get(sk)
                             if how is None:
-                                entries.append(('UnaryOp.' + sk, None, allf, fields, 'Never', intro))
+                                entries.append(('UnaryOp.' + sk, None, allf, fields, 'Never', intro, hide))
                             elif how[0] == 'always':
-                                entries.append(('UnaryOp.' + sk, None, allf, fields, 'Always', intro))
+                                entries.append(('UnaryOp.' + sk, None, allf, fields, 'Always', intro, hide))
                             else:
                                 features.add(how[0][1])
-                                entries.append(('UnaryOp.' + sk, (how[0][1], True), allf, fields, 'Always', intro))
-                                entries.append(('UnaryOp.' + sk, (how[0][1], False), allf, fields, 'Never', intro))
+                                entries.append(('UnaryOp.' + sk, (how[0][1], True), allf, fields, 'Always', intro, hide))
+                                entries.append(('UnaryOp.' + sk, (how[0][1], False), allf, fields, 'Never', intro, hide))
                     continue
-                entries.append((kind, None, allf, fields, rw, intro))
+                entries.append((kind, None, allf, fields, rw, intro, hide))
                 if sub:
                     for holder, subfields in sub.items():
                         ftypes = dict(nfields[kind])
@@ -845,12 +1083,13 @@ def translate(repo):
                             _fail(fn, m, 'nested field path through %s' % holder)
                         # the holder node is reached, and of it only these sub-fields
                         if holder not in fields and not allf:
-                            entries[-1] = (kind, None, allf, fields + [holder], rw, intro)
+                            entries[-1] = (kind, None, allf, fields + [holder], rw, intro, hide)
                             fields = fields + [holder]
                         if ('visit_' + hk) in ci.methods:
                             _fail(fn, m, 'nested field path and a handler for %s' % hk)
-                        entries.append((hk, None, False, list(subfields), 'Never', []))
+                        entries.append((hk, None, False, list(subfields), 'Never', [], []))
             passes.append((module + '.' + cname, gate, entries))
+    meta['features'] = sorted(features)
     return emit(nfields, sorts, S, stmt_fields, passes, sorted(features), meta), passes, meta
 
 
@@ -897,10 +1136,10 @@ def emit(nfields, sorts, S, stmt_fields, passes, features, meta):
     ps = []
     for name, gate, entries in passes:
         es = []
-        for kind, g, allf, fields, rw, intro in entries:
-            es.append('(%s, %s, mkAction %s %s %s %s)' % (
+        for kind, g, allf, fields, rw, intro, hide in entries:
+            es.append('(%s, %s, mkAction %s %s %s %s %s)' % (
                 coq_str(kind), coq_gate(g), 'true' if allf else 'false', coq_list(map(coq_str, fields)), rw,
-                coq_list(map(coq_str, intro))))
+                coq_list(map(coq_str, intro)), coq_list(map(coq_str, hide))))
         ps.append('mkGpass %s %s\n     [' % (coq_str(name), coq_gate(gate)) + ';\n      '.join(es) + ']')
     out.append('Definition gen_passes : list gpass :=\n  [' + ';\n   '.join(ps) + '].')
     return '\n'.join(out) + '\n'
